@@ -1,4 +1,5 @@
 import Spine.C03Reg
+import Spine.GateThm
 /-!
 # C03 — a remote write takes effect only with a binding and write permission
 
@@ -13,6 +14,11 @@ binding registry immediately" is PROVED over all histories for the member with r
 (`c03_follows_registry`), REFUTED for the code as written by two kernel-checked witnesses (the C10 and C09 registry
 defects lose bindings the SPEC keeps), and its security direction — never accepted without a binding in force — is
 PROVED for every member (`c03_accepted_only_if_registry`).
+Schedules: the sequential theorems are complemented by the event-sourced model `Spine.Gate` (section "all schedules"
+below): a write is the two events gate / apply, and for EVERY interleaving with registry operations and clean-ups a
+write that changed the data was writable and bound at the moment of its gate (`c03_all_schedules_bound_at_gate`), a
+refused or cleaned-up write is never applied by any continuation (`c03_refused_never_applied`,
+`c03_cleaned_never_applied`); `c03_gate_model_agrees` ties that model to this one. Tie: `TestGate`.
 Not modelled (monitored on the real code by `TestDispatch` only): the data values themselves (digest before / after
 through the public API), the data-change *event* (the model's `W` marker is compared with the observed write event),
 write approval callbacks (C12), restricted-exchange payload rules (C02/C04).
@@ -183,5 +189,93 @@ example :
 example :
     (processCmd exW 1 { witD ([1], 1) with bad := true }).2 = [(1, .result (some 50) 1 ([1], 1) ([1], 1) (some 0))] ∧
     (processCmd exW 1 { witD ([1], 1) with bad := true }).1.written = [] := by decide
+
+/-! ## "at the moment it is processed" — all schedules (`Spine.Gate`)
+
+The theorems above are about sequential histories: one operation is one step. In the code the gate and the data
+change are two moments (`BindingsOnFeature` takes a snapshot of the registry in one region of the manager's mutex;
+`processWrite` runs later — at once, or when the application's write approval arrives), and registry operations of
+other connections and of the application run in between. `Spine.Gate` splits a write into the events `gate` and
+`apply`; every list of events is a schedule. -/
+
+/-- All schedules, every member of the family: whatever the interleaving of any number of writes with grants, deletes,
+    entity removals and clean-ups, a write that changed the data (i) was of a function announced writable and (ii) its
+    sender held the binding in the registry as it stood at the moment of its gate — after exactly the `seen` registry
+    operations executed before the snapshot, none later. A binding granted after the snapshot does not authorise it,
+    a deletion after the snapshot does not un-authorise it: the moment of processing decides. -/
+theorem c03_all_schedules_bound_at_gate (cfg : Cfg) (b0 : List Entry) (evs : List Gate.Ev) (w : Gate.Pend)
+    (hw : w ∈ (Gate.run (Gate.init cfg b0) evs).applied) :
+    w.wr = true ∧ w.seen ≤ (Gate.run (Gate.init cfg b0) evs).hist.length ∧
+      w.e ∈ Gate.regFold cfg b0 ((Gate.run (Gate.init cfg b0) evs).hist.take w.seen) :=
+  Gate.applied_bound_at_gate cfg b0 evs w hw
+
+/-- … and the data changes only through the write's own `apply` event, only if the gate let it through: no registry
+    operation, no other write's event, no clean-up applies a write. -/
+theorem c03_applied_only_by_own_apply (s : Gate.St) (ev : Gate.Ev) (w : Gate.Pend) (hw : w ∈ (Gate.step s ev).applied) :
+    w ∈ s.applied ∨ (ev = .apply w.id ∧ w ∈ s.pend ∧ w.ok = true) :=
+  Gate.applied_step_mono s ev w hw
+
+/-- "rejected again as soon as … the writer's device or entity disappears", for a write that is still waiting: the
+    clean-up of the writer's entity discards it, a later approval applies nothing. -/
+theorem c03_pending_discarded_when_entity_gone (s : Gate.St) (p : Nat) (ent : List Nat) (w : Gate.Pend)
+    (hw : w ∈ (Gate.stepClean s p ent).pend) (hp : w.e.2.1 = p) (he : w.e.2.2.1 = ent) : w.ok = false :=
+  Gate.clean_discards s p ent w hw hp he
+
+/-- … lifted to ALL continuations: once the clean-up of the writer's entity has run, a write of that entity that had
+    passed the gate and was still waiting is never applied, whatever follows — a late approval, a new binding granted to
+    the re-announced entity, a later gate event that re-uses the id. -/
+theorem c03_cleaned_never_applied (s : Gate.St) (p : Nat) (ent : List Nat) (i : Nat) (hu : i ∈ s.used)
+    (hmine : ∀ w ∈ s.pend, w.id = i → w.e.2.1 = p ∧ w.e.2.2.1 = ent) (hna : ∀ w ∈ s.applied, w.id ≠ i)
+    (evs : List Gate.Ev) : ∀ w ∈ (Gate.run (Gate.stepClean s p ent) evs).applied, w.id ≠ i :=
+  Gate.cleaned_never_applied s p ent i hu hmine hna evs
+
+/-- "otherwise the data is unchanged", all continuations: a write the gate refused (not writable, or not bound at that
+    moment) is never applied, whatever follows — in particular not by a binding granted afterwards. -/
+theorem c03_refused_never_applied (s : Gate.St) (i : Nat) (e : Entry) (wr : Bool) (hfresh : s.used.contains i = false)
+    (hv : Gate.verdict s.binds e wr = false) (hna : ∀ w ∈ s.applied, w.id ≠ i) (hnp : ∀ w ∈ s.pend, w.id ≠ i)
+    (evs : List Gate.Ev) : ∀ w ∈ (Gate.run (Gate.stepGate s i e wr) evs).applied, w.id ≠ i :=
+  Gate.refused_never_applied s i e wr hfresh hv hna hnp evs
+
+/-- non-vacuity of the two: the state after `gate 1` (bound) meets the hypotheses of the first for (1, [1]) and the
+    write IS applied if the clean-up does not run; the empty registry meets those of the second -/
+example :
+    let s := Gate.run (Gate.init Cfg.clean [(([1], 1), 1, ([1], 1))]) [.gate 1 (([1], 1), 1, ([1], 1)) true]
+    (1 ∈ s.used) ∧ (∀ w ∈ s.pend, w.id = 1 → w.e.2.1 = 1 ∧ w.e.2.2.1 = [1]) ∧ s.applied.map (·.id) = [] ∧
+    (Gate.run s [.apply 1]).applied.map (·.id) = [1] ∧
+    (Gate.run (Gate.stepClean s 1 [1]) [.reg (.grant (([1], 1), 1, ([1], 1))), .apply 1]).applied.map (·.id) = [] ∧
+    Gate.verdict (Gate.init Cfg.clean []).binds (([1], 1), 1, ([1], 1)) true = false := by
+  refine ⟨by decide, ?_, by decide, by decide, by decide, by decide⟩
+  intro w hw hid
+  simp [Gate.run, Gate.step, Gate.stepGate, Gate.init, Gate.verdict] at hw
+  subst hw
+  exact ⟨rfl, rfl⟩
+
+/-- Cross-model agreement: the sequential dispatch world is the schedule "gate immediately followed by apply" of this
+    model — the gate event's verdict is `gateOk` on the same registry, the registry operations are `callApply` /
+    `removeEnt` of the dispatch world (same family over the C09 / C10 flags). -/
+theorem c03_gate_model_agrees (w : W) (p : Nat) (lf : LF) (d : Dg) (c s : Addr) (t : Nat) (ent : List Nat) :
+    gateOk w p lf d = Gate.verdict w.binds (d.dst, p, d.src) (writable lf d.fn) ∧
+    (callApply w p (.bind c s t)).binds = Gate.regApply w.cfg w.binds (.grant (s, p, c)) ∧
+    (callApply w p (.unbind c s)).binds = Gate.regApply w.cfg w.binds (.delete s p c) ∧
+    (removeEnt w p ent).binds = Gate.regApply w.cfg w.binds (.entGone p ent) :=
+  ⟨Gate.gate_agrees w p lf d, Gate.reg_agrees w p c s t ent⟩
+
+/-- non-vacuity, four schedules over the binding `eB` of ([1],1) on connection 1 to server ([1],1):
+    (a) gate, then the binding is deleted, then the approval arrives: applied — it was processed while bound;
+    (b) deleted first, gate, granted again, apply: refused — a later grant does not authorise it;
+    (c) gate, the writer's entity disappears (registry pass and clean-up), approval: nothing is applied;
+    (d) two writers interleaved, only the bound one is applied, whatever the order of the apply events -/
+def eB : Entry := (([1], 1), 1, ([1], 1))
+def eOther : Entry := (([1], 1), 2, ([1], 1))
+example :
+    ((Gate.run (Gate.init Cfg.clean [eB]) [.gate 1 eB true, .reg (.delete ([1], 1) 1 ([1], 1)), .apply 1]).applied.map (·.id)) = [1] ∧
+    ((Gate.run (Gate.init Cfg.clean [eB]) [.gate 1 eB true, .reg (.delete ([1], 1) 1 ([1], 1)), .apply 1]).binds) = [] ∧
+    (let s := Gate.run (Gate.init Cfg.clean [eB]) [.reg (.delete ([1], 1) 1 ([1], 1)), .gate 1 eB true, .reg (.grant eB), .apply 1]
+     s.applied.map (·.id) = [] ∧ s.refused = [1] ∧ s.binds = [eB]) ∧
+    (let s := Gate.run (Gate.init Cfg.clean [eB]) [.gate 1 eB true, .reg (.entGone 1 [1]), .clean 1 [1], .apply 1]
+     s.applied.map (·.id) = [] ∧ s.refused = [] ∧ s.pend.map (·.id) = []) ∧
+    (let s := Gate.run (Gate.init Cfg.clean [eB]) [.gate 1 eB true, .gate 2 eOther true, .reg (.delete ([1], 1) 1 ([1], 1)), .apply 2, .apply 1]
+     s.applied.map (·.id) = [1] ∧ s.refused = [2]) ∧
+    ((Gate.run (Gate.init Cfg.clean [eB]) [.gate 1 eB false, .apply 1]).refused) = [1] := by decide
 
 end Spine.Props.C03
